@@ -151,7 +151,7 @@ fn raws(ts: &[T]) -> Vec<Raw> {
     ts.iter().map(raw_of).collect()
 }
 fn refs(rs: &[Raw]) -> Vec<&dyn Aml> {
-    rs.iter().map(|r| r as &dyn Aml).collect()
+    crate::util::spare(rs.iter().map(|r| r as &dyn Aml).collect())
 }
 pub fn access(i: u8) -> FieldAccessType {
     [FieldAccessType::Any, FieldAccessType::Byte, FieldAccessType::Word, FieldAccessType::DWord, FieldAccessType::QWord, FieldAccessType::Buffer][i as usize]
@@ -182,7 +182,7 @@ pub fn real_with<R>(t: &T, kk: &mut dyn FnMut(&dyn Aml) -> R) -> R {
         },
         T::Str(s, owned) => {
             if *owned {
-                kk(&s.clone())
+                kk(&crate::util::spare_string(s))
             } else {
                 let st: &'static str = Box::leak(s.clone().into_boxed_str());
                 kk(&st)
@@ -208,7 +208,7 @@ pub fn real_with<R>(t: &T, kk: &mut dyn FnMut(&dyn Aml) -> R) -> R {
         T::Eisa(s) => kk(&EISAName::new(s)),
         T::Uuid(s) => kk(&Uuid::new(s)),
         T::BufferTerm(c) => kk(&BufferTerm::new(&raw_of(c))),
-        T::BufferData(d) => kk(&BufferData::new(d.clone())),
+        T::BufferData(d) => kk(&BufferData::new(crate::util::spare(d.clone()))),
         T::ResTemplate(rs) => {
             let r: Vec<Raw> = rs.iter().map(|x| Raw::bytes(x.real())).collect();
             kk(&ResourceTemplate::new(refs(&r)))
